@@ -23,7 +23,7 @@ OP_OWNER = {
     "csvfault": ["C15"], "csvreadfault": ["C15"],
 }
 
-BASE = "filter+sort+slice+select+drop+copy+apply+fapply+rownums+eval+distinct+groupagg+groupframes+equals+rebuild+tocsv+tojson+tosql+string"
+BASE = "filter+sort+slice+select+drop+copy+apply+fapply+rownums+eval+distinct+groupagg+groupframes+equals+rebuild+tocsv+tojson+tosql+string+permute+permute"
 
 
 def mix(*ops, w=3):
@@ -48,24 +48,24 @@ PROPS = {
             "sections": [hist("hist", ["sort"]),
                          {"section": "sortadv", "quick": 300, "thorough": 3000, "cover_ops": {"SA"}}]},
     "C04": {"lean": ["QF.Props.C04", "QF.Props.C04Spec"], "extra_ns": ["QF.Props.C04Spec"],
-            "sections": [hist("hist", ["groupagg", "groupframes"]),
+            "sections": [hist("hist", ["groupagg", "groupframes", "permute", "grouptest"], quick=300, cover=["groupagg", "groupframes"]),
                          {"section": "grpadv", "quick": 600, "thorough": 6000, "cover_ops": {"GA"}}]},
     "C05": {"lean": ["QF.Props.C05", "QF.Props.C05Distinct", "QF.Props.C04", "QF.Props.C04Spec"], "extra_ns": ["QF.Props.C04", "QF.Props.C04Spec"], "sections": [hist("hist", ["distinct"])]},
     "C06": {"lean": ["QF.Props.C06", "QF.Props.C06Apply"],
             "sections": [{"section": "hist", "tag": "hist-wit", "opt": "wit=1", "quick": 1, "thorough": 1, "cover_ops": {"fapply"}},
                          hist("hist", ["apply", "fapply", "rownums"])]},
-    "C07": {"lean": ["QF.Props.C07", "QF.Props.C06"], "extra_ns": ["QF.Props.C06"], "sections": [hist("hist", ["eval"])]},
+    "C07": {"lean": ["QF.Props.C07", "QF.Props.C07Eval", "QF.Props.C06"], "extra_ns": ["QF.Props.C07Eval"], "sections": [hist("hist", ["eval", "eval", "permute"], quick=300, cover=["eval"])]},
     "C08": {"lean": ["QF.Props.C08", "QF.Props.C08Project"],
             "sections": [hist("hist", ["select", "drop", "slice", "copy"], cover=["new", "select", "drop", "slice", "copy"]),
                          {"section": "hist", "tag": "hist-new", "opt": "newonly=1", "quick": 150, "thorough": 1500, "cover_ops": {"new"}}]},
     "C09": {"lean": ["QF.Props.C09", "QF.Props.C09Equals", "QF.Props.C06"], "extra_ns": ["QF.Props.C06"],
-            "sections": [dict(hist("hist", ["equals", "rebuild", "rebuild", "sort", "sort", "filter", "slice", "string", "tocsv", "tojson"], quick=250), cover_ops=None)]},
+            "sections": [dict(hist("hist", ["equals", "rebuild", "rebuild", "sort", "permute", "filter", "slice", "string", "tocsv", "tojson", "apply", "rownums", "copy"], quick=250), cover_ops=None)]},
     "C11": {"lean": ["QF.Props.C11"],
             "sections": [{"section": "conc", "race": True, "quick": 150, "thorough": 2000, "cover_ops": {"CC"}}],
             "rule": "cases = batches of 6..12 operations (Filter incl. like/ilike, Sort, Distinct, GroupBy/Aggregate, Apply, FilteredApply, Eval with one shared context, Select/Slice/Copy, ToCSV/ToJSON/String, Equals) "
                     "started together on one frame family, each batch three times, in a binary built with the race detector; every result is compared with the result of the same operation run alone",
             "open_goals": ["the Go memory model is not modelled: absence of races in the real code is observed by the race detector on the explored schedules, not proved"]},
-    "C12": {"lean": ["QF.Props.C12"],
+    "C12": {"lean": ["QF.Props.C12", "QF.Props.C12Read"], "extra_ns": ["QF.Props.C12Read"],
             "sections": [{"section": "csvraw", "tag": "csvraw-wit", "opt": "wit=1", "quick": 1, "thorough": 1, "cover_ops": {"C"}},
                          {"section": "csvraw", "quick": 300, "thorough": 3000, "cover_ops": {"C"}},
                          {"section": "csvread", "quick": 300, "thorough": 3000, "cover_ops": {"CV"}}],
@@ -77,7 +77,7 @@ PROPS = {
                            "mirror of float64ToDecimal over the extracted tables"],
             "rule": "cases = (float64 bit pattern, buffer state); each output is checked against the Lean definition of shortest round-trip text (exact big-number arithmetic, QF.Num.isShortestRoundTrip) and against strconv; "
                     "generator: special values, all exponents x boundary mantissas, exact integers, powers of ten +-1ulp, short decimals, subnormals, random bits; distinct by (bits, prefix, spare)"},
-    "C13": {"lean": ["QF.Props.C13", "QF.Props.C13Render", "QF.Props.C12"], "extra_ns": ["QF.Props.C12"],
+    "C13": {"lean": ["QF.Props.C13", "QF.Props.C13Render", "QF.Props.C12", "QF.Props.C12Read"], "extra_ns": ["QF.Props.C12", "QF.Props.C12Read"],
             "sections": [dict(hist("hist", ["tocsv", "tocsv", "sort", "filter", "apply"], quick=250), cover_ops={"tocsv"})],
             "rule": "cases = ToCSV of a derived frame with random Header/Columns options; the bytes are parsed with the spec's RFC 4180 scanner and must denote the frame cell by cell "
                     "(floats: the text must parse back to the identical bits by exact arithmetic), then ReadCSV of those bytes with the types declared must give the expected frame (both EmptyNull settings)"},
